@@ -54,6 +54,7 @@ void generate(sim::Rng &r, uint64_t seed, const std::string &tier, sim::Plan &p)
     long a = 0, c1 = 0, c2 = 0, c3 = 0;
     if (kind == 0) a = r.chance(200) ? 127 : (long)r.below(127) + 1;
     else if (kind == 2) a = r.below(2);
+    else if (kind == 1) c1 = r.chance(400) ? r.range(1, 3) : 0;     // a one-shot that is enabled again from inside its own callback, c1 times
     else if (kind == 3) {
       a = far ? r.range(4, 5) : r.range(0, 5);   // shape
       c1 = r.range(0, 59); c2 = r.range(0, 23); c3 = r.range(1, 28);
@@ -181,6 +182,7 @@ struct AState {
   bool uncertain = false;        // a wall-clock jump happened since arming: only the safety half is asserted
   int64_t last_fired_instant = -1;
   long callbacks = 0;
+  long reenable_left = 0;        // one-shot: how many more times the callback enables the alarm again
 };
 
 struct World {
@@ -230,7 +232,17 @@ void on_alarm(int i) {
   } else {
     // after a wall-clock jump: only "not twice for one instant" — identify the instant as the matching one nearest to now
   }
-  if (s.spec.kind == 1) { s.enabled = false; s.expect_local = -1; if (s.alarm->isEnabled()) sim::violation("C20/oneshot-still-enabled", "a one-shot alarm is still enabled inside its callback"); }
+  if (s.spec.kind == 1) {
+    int64_t served = s.expect_local;
+    s.enabled = false; s.expect_local = -1;
+    if (s.alarm->isEnabled()) sim::violation("C20/oneshot-still-enabled", "a one-shot alarm is still enabled inside its callback");
+    else if (s.reenable_left > 0 && !s.uncertain && served >= 0) {
+      // enabled again from inside the callback: the instant just served must not be served a second time, even if the
+      // wall clock has not quite reached it yet (monotonic clock ahead)
+      --s.reenable_left;
+      if (s.alarm->enable()) { s.enabled = true; model_arm(i, std::max<int64_t>(local_now_ms / 1000, served)); sim::probe("oneshot_reenabled_in_callback"); }
+    }
+  }
   else {
     // re-armed before the callback from max(now, previous target)
     int64_t now_local_s = local_now_ms / 1000;
@@ -335,6 +347,7 @@ void execute(const sim::Plan &plan) {
     s.spec.arg = op.arg(2);
     long tz = std::max(-720L, std::min(840L, op.arg(3)));
     s.spec.tz_s = tz * 60;
+    if (s.spec.kind == 1) s.reenable_left = std::max(0L, std::min(3L, op.arg(4)));
     auto cbf = [n] { on_alarm(n); };
     if (s.spec.kind == 0) { auto *al = new WeeklyAlarm(W.loop); std::string m; s.spec.arg &= 127; if (!s.spec.arg) s.spec.arg = 1; for (int b = 0; b < 7; ++b) m.push_back(((s.spec.arg >> b) & 1) ? '1' : '0'); s.init_ok = al->initialize((int)s.spec.sod, m); s.alarm = al; }
     else if (s.spec.kind == 1) { auto *al = new OneshotAlarm(W.loop); s.init_ok = al->initialize((int)s.spec.sod); s.alarm = al; }
